@@ -23,6 +23,7 @@ def main():
         i += 1
     sc = harness.Scratch(cfg_test=cfgtest)
     prog = harness.Program(sc, prof == 'on')
+    sc.finish_replay(prog)
     ob = oblig.Ob(fn, dom=dom, abstractions=abst, kf=kf, strlen=strlen, unwind=unwind)
     qdir = os.path.join(sc.dir, 'q'); os.makedirs(qdir, exist_ok=True)
     pts = oblig.gen_points(prog, ob, nval, 1) if nval else None
